@@ -137,6 +137,13 @@ C09_NoSpurious(C, R) ==
          \E k \in 1..Len(R.t) - 1 : R.t[k].r <= te /\ te <= R.t[k + 1].r /\ ~Same(R.gsign[i][k], R.gsign[i][k + 1])
 \* a terminal count that was reached stops the run with UserInterrupt
 C10_Honoured(C, R) == (IsSol(R) /\ TermReached(C, R) # {}) => R.status = "UserInterrupt"
+\* the run does not integrate past a sign change of a function that is terminal at its first occurrence (sign pattern of the
+\* event function at the reported step ends, as in C09_Recorded; the partial step that ends at the event point is not judged)
+C10_NoPass(C, R) ==
+    (IsSol(R) /\ ~C.hasT /\ ~C.hasFs /\ Len(C.events) > 0) =>
+      LET nb == IF R.status = "UserInterrupt" THEN Len(R.t) - 2 ELSE Len(R.t) - 1
+      IN \A i \in 1..Len(C.events) : C.events[i].term = 1 =>
+            \A k \in 1..nb : ~Opp(R.gsign[i][k], R.gsign[i][k + 1], C.events[i].dir)
 C10_Recorded(C, R) ==
     (IsSol(R) /\ R.status = "UserInterrupt") =>
       /\ Len(R.t) >= 1
